@@ -544,20 +544,20 @@ def run(run, tier, replay):
                                                        programs, prebuilt)
             else:
                 nruns = 200 if tier == "quick" else 5000
-                # the two scenarios of the known finding, in their own processes, meanwhile:
-                # pool1 (deterministic, one-slot pool) and poolrace (default limit, a race, repeated)
+                # the scenarios of the known findings, in their own processes, meanwhile: pool1
+                # (deterministic, one-slot pool), poolrace and poolpanic (default limit, races, repeated)
                 sc = {}
+                scen = [("pool1", []), ("poolrace", ["--repeat", "150" if tier == "quick" else "1500"]),
+                        ("poolpanic", ["--repeat", "700" if tier == "quick" else "3000"])]
 
-                def scenario():
+                def scenario(name, extra):
                     try:
-                        a = record(run, tmp, ["--scenario", "pool1"], "pool1", {}, prebuilt)
-                        b = record(run, tmp, ["--scenario", "poolrace", "--repeat",
-                                              "150" if tier == "quick" else "1500"], "poolrace", {}, prebuilt)
-                        sc["r"] = (a, b)
+                        sc[name] = record(run, tmp, ["--scenario", name] + extra, name, {}, prebuilt)
                     except BaseException as e:      # noqa: B902
-                        sc["r"] = e
-                st = threading.Thread(target=scenario)
-                st.start()
+                        sc[name] = e
+                sts = [threading.Thread(target=scenario, args=x) for x in scen]
+                for t in sts:
+                    t.start()
                 # thorough: three recorder processes side by side (most of a run is sleeping)
                 parts = 1 if tier == "quick" else 3
                 bounds = [nruns * k // parts for k in range(parts + 1)]
@@ -572,9 +572,8 @@ def run(run, tier, replay):
                 rts = [threading.Thread(target=rec_part, args=(k,)) for k in range(parts)]
                 for t in rts:
                     t.start()
-                for t in rts:
+                for t in rts + sts:
                     t.join()
-                st.join()
                 trace = os.path.join(tmp, "main.ndjson")
                 problems, cases, steps = [], 0, 0
                 with open(trace, "w") as out:
@@ -587,9 +586,10 @@ def run(run, tier, replay):
                         problems += x[1]
                         cases += x[2]
                         steps += x[3]
-                if isinstance(sc["r"], BaseException):
-                    raise sc["r"]
-                for name, (_t, p2, c2, _s) in zip(("pool1", "poolrace"), sc["r"]):
+                for name, _x in scen:
+                    if isinstance(sc[name], BaseException):
+                        raise sc[name]
+                    _t, p2, c2, _s = sc[name]
                     problems += p2
                     run.note("scenario_" + name, ("hang after %d runs" % c2) if any(p["type"] == "hang" for p in p2)
                              else "completed (%d runs)" % c2)
